@@ -840,5 +840,9 @@ func main() {
 		fmt.Print(s)
 		return
 	}
+	// A runaway recursion is fatal once the stack limit is reached; the default limit of 1 GB takes
+	// seconds to fill.  128 MB is far above what any finite case needs (the 12 000-deep nesting sweep
+	// uses a few MB of stack) and makes "exhausts the stack" show within a fraction of a second.
+	debug.SetMaxStack(128 << 20)
 	sup.Main(handle)
 }
